@@ -23,6 +23,8 @@
 #ifndef OFV_NATIVE
 /* TRUSTED: cbmc 6.11 ships no model of bcopy(3); this is its definition */
 void bcopy(const void *src, void *dst, size_t n) { memmove(dst, src, n); }
+#undef bcmp
+int bcmp(const void *a, const void *b, size_t n) { return memcmp(a, b, n); }	/* likewise bcmp(3) */
 #endif
 /* kernel contracts (C13) standing for the kernels at their call sites inside the cores (goto-instrument --replace-calls):
  * dst[i] ^= c * src[i] for i < sz, nothing else. (The real kernels form a pointer before the buffer for sz < 15, which CBMC's
